@@ -36,7 +36,8 @@ LEVEL_TEXT = ("Generated-input search (Hypothesis, seeded, sharded) over user "
               "sampled. Absence of violations is not proven.")
 LEVEL_NOTE = ("numpy float64; tolerances 1e-10 relative to the stated scale "
               "(||H||*sqrt(iPu) for interference, iPu for powers, "
-              "||W||*||H_eff|| for the receive filters, additionally the "
+              "||W||*||newH|| resp. ||W_k||*||H_k||*||Ms_k|| for the receive "
+              "filters, additionally the "
               "eigen-gap of the interference covariance for the external "
               "nulling); cases whose scale factor exceeds 1e7 / 1e5 are "
               "counted and skipped for that sub-check only")
@@ -90,13 +91,16 @@ def _chan(tier, n):
     def svd(u):
         return st.fixed_dictionaries(dict(
             kind=st.just("svd"), seed=seeds, scale=loguniform(-3, 3),
-            logk=fl(0.0, kmax),
-            u=st.lists(u, min_size=n, max_size=n).map(
-                lambda l: [round(x, 6) for x in l])))
-    generic = svd(fl(0.0, 1.0))
-    # repeated singular values (degenerate singular spaces), unitary channel
-    degenerate = svd(st.sampled_from([0.0, 0.0, 0.5, 1.0]))
-    return st.one_of(gauss, gauss, generic, generic, degenerate)
+            logk=fl(0.0, kmax), u=u))
+    # generic: exponents of the singular values uniform from the seed
+    # (u=None); drawn: Hypothesis picks them (boundaries, clusters);
+    # degenerate: repeated singular values / unitary channel
+    generic = svd(st.none())
+    drawn = svd(st.lists(fl(0.0, 1.0), min_size=n, max_size=n).map(
+        lambda l: [round(x, 6) for x in l]))
+    degenerate = svd(st.lists(st.sampled_from([0.0, 0.0, 0.5, 1.0]),
+                              min_size=n, max_size=n))
+    return st.one_of(gauss, gauss, generic, generic, drawn, degenerate)
 
 
 @st.composite
@@ -185,8 +189,10 @@ def _build_H(chan, n):
         return chan["scale"] * _randc(rs, n, n)
     U = np.linalg.qr(_randc(rs, n, n))[0]
     V = np.linalg.qr(_randc(rs, n, n))[0]
-    s = chan["scale"] * 10.0 ** (-chan["logk"] * np.asarray(chan["u"],
-                                                            dtype=float))
+    u = chan.get("u")
+    if u is None:
+        u = np.concatenate([[0.0, 1.0], rs.uniform(0.0, 1.0, n)])[:n]
+    s = chan["scale"] * 10.0 ** (-chan["logk"] * np.asarray(u, dtype=float))
     return (U * s) @ V.conj().T
 
 
@@ -206,11 +212,15 @@ def _size_labels(ctx, case):
     ctx.label("K=%d" % K if K <= 4 else "K>=5", "N=%d" % N,
               "chan=" + case["chan"]["kind"])
     if case["chan"]["kind"] == "svd":
-        u = case["chan"]["u"]
-        k = case["chan"]["logk"] * (max(u) - min(u))
-        ctx.label("cond>=1e2" if k >= 2 else "cond<1e2")
-        if len(set(u)) < len(u):
-            ctx.label("repeated_singular_values")
+        u = case["chan"].get("u")
+        if u is None:
+            k = case["chan"]["logk"]
+        else:
+            k = case["chan"]["logk"] * (max(u) - min(u))
+            if len(set(u)) < len(u):
+                ctx.label("repeated_singular_values")
+        ctx.label("cond>=1e4" if k >= 4 else
+                  ("cond>=1e2" if k >= 2 else "cond<1e2"))
 
 
 # ----------------------------------------------------------------------------
@@ -435,7 +445,9 @@ def _check_extint(case, ctx):
         # receive filter inverts the effective channel of the user
         Hk = Hs[k * N:(k + 1) * N]
         A = Hk @ Mk
-        cnd = max(1.0, _norm2(Wk) * _norm2(A))
+        # backward-error scale of "W_k is a left inverse of H_k Ms_k":
+        # the product H_k Ms_k itself is only known to eps*||H_k||*||Ms_k||
+        cnd = max(1.0, _norm2(Wk) * _norm2(Hk) * _norm2(Mk))
         if not np.isfinite(cnd):
             raise Violation("ext_rx_inverts", "receive filter of user %d is "
                             "not finite" % k, tk)
@@ -446,7 +458,8 @@ def _check_extint(case, ctx):
             err = float(np.max(np.abs(Wk @ A - np.eye(nsk))))
             ctx.close("ext_rx_inverts", err / (cnd * wfac), 1e-10,
                       "user %d: max|W_k H_k Ms_k - I| = %.3e, "
-                      "||W||*||H_eff|| = %.3e, whitening factor %.3e" %
+                      "||W_k||*||H_k||*||Ms_k|| = %.3e, whitening factor "
+                      "%.3e" %
                       (k, err, cnd, wfac), tk)
         # interference-aware stream reduction removes the external
         # interference when enough streams are sacrificed
